@@ -180,6 +180,19 @@ def run_convert(plan, cov, events):
     cov["convert_nonsym_checked"] += 1
     return "nonsym"
   w = np.linalg.eigvalsh((M.astype(float) + M.T.astype(float)) / 2)
+  if tol is not None and path == "diagonal" and np.array_equal(M, np.diag(np.diag(M))):
+    # an exactly diagonal matrix has exactly known eigenvalues, and an explicit tolerance is an
+    # exactly known number: no guard band ("an eigenvalue below minus the tolerance is rejected",
+    # for all tol >= 0 including 0)
+    dmin = float(np.diag(M).min())
+    if dmin < -tol:
+      if not isinstance(exc, NonPSDError):
+        raise Violation("convert", "diagonal_negative_entry_not_rejected,tol=%s" % ("zero" if tol == 0 else "positive"),
+                        "diagonal matrix with entry %g < -tol = -%g gave %s" % (dmin, tol, outcome))
+      cov["convert_rejections_checked"] += 1
+      cov["convert_diagonal_exact_rule"] += 1
+      cov["convert_path_" + path] += 1
+      return "rejected/" + path
   tol_eff = tol if tol is not None else np.abs(w).max() * n * eps_m
   noise = 50 * n * eps_m * np.abs(w).max()
   lam = w.min()
@@ -263,6 +276,11 @@ def run_prior(plan, cov, events):
   arr = None
   if opt in ("array", "singular", "indefinite", "nonsym", "wrongshape"):
     arr = make_array(dict(kind="spd", seed=plan["arr_seed"], d=d))
+    if opt == "array" and plan.get("arr_int"):
+      # a whole-number SPD matrix kept in an integer dtype (still "a numpy array of shape (d, d)")
+      Bi = np_stream(plan["arr_seed"], "intspd").randint(-2, 3, size=(d, d))
+      arr = (Bi.dot(Bi.T) + np.eye(d, dtype=int)).astype(plan["arr_int"])
+      cov["array_integer_dtype"] += 1
     if opt == "singular":
       # exactly singular and exactly representable: B B^T with small integers
       Bm = np_stream(plan["arr_seed"], "sing").randint(-3, 4, size=(d, max(1, d - 1))).astype(float)
@@ -455,6 +473,7 @@ def run_prior(plan, cov, events):
     except Exception:
       pass
     cov["prior_random_checked"] += 1
+    _CAPTURE["M"] = np.asarray(M, dtype=float).tolist()
     return sig
   e = rel_err(M, M_exp)
   tol_v = 1e-7
@@ -514,6 +533,9 @@ def run_init(plan, cov, events):
   if opt in ("array", "array_badcols", "array_toomanyrows", "array_rowsmismatch"):
     if opt == "array":
       arr = make_array(dict(kind="lin", seed=plan["arr_seed"], k=keff, d=d))
+      if plan.get("arr_int"):
+        arr = np.round(arr * 3).astype(plan["arr_int"])      # whole numbers in an integer dtype
+        cov["array_integer_dtype"] += 1
     elif opt == "array_badcols":
       arr = make_array(dict(kind="lin", seed=plan["arr_seed"], k=keff, d=d + 1))
     elif opt == "array_toomanyrows":
@@ -584,6 +606,7 @@ def run_init(plan, cov, events):
       raise Violation("init", sig + ",not_reproducible", "init='random' differs for the same seed under another ambient RNG state")
     if np.array_equal(L, L3):
       raise Violation("init", sig + ",seed_ignored", "init='random' identical for different seeds")
+    _CAPTURE["M"] = np.asarray(L, dtype=float).tolist()
   elif opt == "pca":
     from sklearn.decomposition import PCA
     ref = PCA(n_components=keff).fit(D.X).components_
@@ -640,6 +663,10 @@ def gen_plan(seed, tier):
     elif substream(seed, "c20-f32").random() < 0.12:
       plan["matrix"]["dtype"] = "float32"
       plan["tol"] = None
+    elif kind == "diag_neg" and substream(seed, "c20-tinydiag").random() < 0.5:
+      rt = substream(seed, "c20-tinydiag2")
+      plan["matrix"]["neg"] = rt.choice([1e-30, 1e-20, 1e-17, 1e-14, 1e-10])   # a rounding-sized negative entry
+      plan["tol"] = rt.choice([0.0, 0.0, 1e-25, 1e-12])
   elif cfg == "prior":
     desc = gen_dataset(r, dmax=5)
     desc["tuples"] = r.randint(12, 30)
@@ -669,6 +696,10 @@ def gen_plan(seed, tier):
     plan["prehistory"] = [dict(learner=rp.choice(["LMNN", "NCA", "MLKR"]),
                                init=rp.choice(["auto", "pca", "identity", "random", "lda"]))
                           for _ in range(rp.randint(1, 2))]
+  if cfg in ("prior", "init") and plan["option"] == "array" and substream(seed, "c20-intarr").random() < 0.3:
+    plan["arr_int"] = substream(seed, "c20-intarr2").choice(["int64", "int64", "int32"])
+  if cfg in ("prior", "init") and plan["option"] == "random" and substream(seed, "c20-fresh").random() < 0.3:
+    plan["fresh"] = True
   if cfg in ("prior", "init"):
     from ..estimators import gen_layout
     lay = gen_layout(substream(seed, "c20-layout"), 0.4)
@@ -677,7 +708,19 @@ def gen_plan(seed, tier):
   return plan
 
 
+_CAPTURE = {}
+
+
+def fresh_eval(plan):
+  """The 'random' prior / init of this plan as a fresh interpreter (other hash seed, virgin
+  global RNG) produces it."""
+  _CAPTURE.clear()
+  r = run_plan(dict(plan, fresh=False))
+  return dict(M=_CAPTURE.get("M"), violation=r.get("violation"), inconclusive=r.get("inconclusive"))
+
+
 def run_plan(plan):
+  _CAPTURE.clear()
   cov = collections.Counter()
   events = []
   inconclusive = []
@@ -693,6 +736,22 @@ def run_plan(plan):
     else:
       shape += "|" + run_init(plan, cov, events) + "|k=%r" % plan["k"]
     nontrivial = True
+    if plan.get("fresh") and _CAPTURE.get("M") is not None:
+      # 'random' is seed reproducible: the same integer seed gives the same matrix in another
+      # interpreter process (other string-hash salt, untouched global RNG)
+      from .. import runner
+      mine = np.array(_CAPTURE["M"])
+      got = runner.fresh_eval(ID, plan)
+      if got.get("M") is None:
+        raise Violation(plan["cfg"], "random,fresh_process,no_matrix",
+                        "the same plan gave no matrix in a fresh interpreter: %r" % (got,))
+      e = rel_err(mine, np.array(got["M"]))
+      events.append(dict(cfg="fresh_process", rel=float(np.round(e, 6))))
+      if e > 1e-9:
+        raise Violation(plan["cfg"], "random,fresh_process,learner=%s" % plan["learner"],
+                        "%s='random' with integer seed %d differs between this process and a fresh interpreter "
+                        "with another hash seed (relative %.3g)" % (plan["cfg"], plan["seed"], e))
+      cov["random_fresh_process_checked"] += 1
   except Violation as v:
     violation = dict(oracle=v.oracle, sig=v.sig, detail=v.detail, op=None)
   except Inconclusive as ic:
